@@ -13,6 +13,7 @@ enum E { A, B(int32), C(bool, int32) }
 struct Box[T] { v: T }
 enum Opt[T] { None_, Some_(T) }
 struct Two[T, U] { l: T, r: U }
+enum Res[T, U] { Ok_(T), Err_(U) }
 trait Sh { fn sh(Self) -> string; fn bump(Self) -> Self; }
 impl Box[int32] {
     fn tag(self: Box[int32]) -> string { "int" }
@@ -26,8 +27,8 @@ def ty_text(t):
         return "(%s, %s)" % (ty_text(t[1]), ty_text(t[2]))
     if k in ("Box", "Opt", "Vec"):
         return "%s[%s]" % (k, ty_text(t[1]))
-    if k == "Two":
-        return "Two[%s, %s]" % (ty_text(t[1]), ty_text(t[2]))
+    if k in ("Two", "Res"):
+        return "%s[%s, %s]" % (k, ty_text(t[1]), ty_text(t[2]))
     if k == "var":
         return t[1]
     return k
@@ -109,6 +110,10 @@ def make_items():
         Item("Box.wrap", [("T", False)], [("x", A)], ("Box", A), lambda c: "Box { v: x }", method_of="Box"),
         Item("Box.get", [("T", False)], [("self", ("Box", A))], A, lambda c: "self.v", method_of="Box"),
         Item("Box.tag", [("T", False)], [("self", ("Box", A))], ("string",), lambda c: "\"any\"", method_of="Box"),
+        # a type parameter that occurs only in the result type (bound by the expected type at the call)
+        Item("gokr", [("T", False), ("U", False)], [("x", A)], ("Res", A, B), lambda c: "Ok_(x)"),
+        Item("gerr", [("T", False), ("U", False)], [("e", B)], ("Res", A, B), lambda c: "Err_(e)"),
+        Item("gres", [("T", True), ("U", True)], [("r", ("Res", A, B))], ("string",), lambda c: "match r { Ok_(x) => { let y: %s = x; \"ok:\" + %s }, Err_(e) => { let z: %s = e; \"err:\" + %s } }" % (c.ty(A), c.sh(A, "y"), c.ty(B), c.sh(B, "z"))),
         Item("Two.flip", [("T", False), ("U", False)], [("self", ("Two", A, B))], ("Two", B, A), lambda c: "Two { l: self.r, r: self.l }", method_of="Two"),
     ]
     return {i.name: i for i in items}
@@ -216,7 +221,7 @@ class Gen:
             cands = []
             for it in self.items.values():
                 s = match_ret(it.ret, t)
-                if s is not None and it.name not in ("grep", "gcount", "Box.tag"):
+                if s is not None and it.name not in ("grep", "gcount", "Box.tag", "gokr", "gerr", "gres"):
                     cands.append((it, s))
             if cands:
                 it, s = r.choice(cands)
@@ -267,6 +272,19 @@ class Gen:
                 g = "%s.tag()" % w
                 m = ("%s.tag()" % w) if t == ("int32",) else mctx.call("Box.tag", [t], [w])
                 self.used.add("Box.tag")
+            elif k >= 0.52 and k < 0.64:
+                ta, tb = self.conc_type(1), self.conc_type(1)
+                self.need_sh(ta)
+                self.need_sh(tb)
+                rt = ("Res", ta, tb)
+                w = "r%d" % len(stmts_g)
+                which = self.rng.choice(["gokr", "gerr"])
+                arg = self.value(ta if which == "gokr" else tb)
+                stmts_g.append("    let %s: %s = %s;" % (w, ty_text(rt), gctx.call(which, [ta, tb], [arg])))
+                stmts_m.append("    let %s: %s = %s;" % (w, ty_text(rt), mctx.call(which, [ta, tb], [arg])))
+                g = gctx.call("gres", [ta, tb], [w])
+                m = mctx.call("gres", [ta, tb], [w])
+                self.used.update([which, "gres"])
             elif k < 0.42:
                 t = self.conc_type(1)
                 a = self.value(("Vec", t))
